@@ -17,6 +17,7 @@ func genC02() *rapid.Generator[SeqCase] {
 		pool := gcs.NamePool
 		pool = append(append([]string{}, gcs.NamePool...), gcs.HostileNames...) // URL-parser-hostile names (G6)
 		names := rapid.SliceOfNDistinct(rapid.SampledFrom(pool), 1, 4, func(s string) string { return s }).Draw(t, "names")
+		names = gcs.ConflictFree(names)
 		buckets := gcs.BucketPool[:rapid.IntRange(1, 2).Draw(t, "nbuckets")]
 		step := rapid.Custom(func(t *rapid.T) gcs.Op {
 			switch k := rapid.IntRange(0, 19).Draw(t, "kind"); {
